@@ -42,6 +42,19 @@ PROPS = {
         "technique": "Lean 4 proof (case analysis + induction over operation lists) + exhaustive/random correspondence",
         "assumptions": ["AEAD integrity (symbolic ciphertexts) for which requests decrypt"],
     },
+    "C14": {
+        "rule": "twin runs on real objects: for random scripts (6..30 calls over new_request, deliveries incl. replays/tampering/malformed plaintext, prepare 0-2 documents, get_next, submit real/invented, "
+                "response_ready, retrieve, handle_response) and EVERY step boundary, an untouched clone and a copy restored through stringify/parse of device, reader or both (thorough: plus a random subset of later boundaries) "
+                "execute the remaining script; all outputs and final stringified states must be byte-identical. Also Init and Engaged states restored before their successor call (same QR, BLE ident, same established manager and outcome) and stringify fixed points. "
+                "Three digest algorithms, decoys on/off, with/without trust anchors. Distinct by (history, boundary, restored role, output digest)",
+        "xlate_items": [],
+        "trusted_base": ["session model restore = identity (keeps all fields); real Stringify validated by twin-run correspondence, not proved from the serde derives",
+                         "ciborium/serde derive/base64 as used by Stringify"],
+        "level_text": "Lean theorems: with a restore that keeps every state field, restores at any subset of boundaries of any history leave the whole world and every later observation unchanged (induction over the operation list). The tie is a differential twin run on the real session objects at every boundary, plus restore operations inside the C07/C13 model-correspondence histories.",
+        "level_note": "Trusted: Lean kernel; that parse(stringify s) = s for the real structs is established by correspondence (byte-identical continuation + fixed point), and is to be strengthened by the CBOR/schema round-trip theorems of C16.",
+        "technique": "Lean 4 proof (induction over operation lists) + twin-run differential correspondence",
+        "assumptions": ["holder signatures are deterministic (RFC 6979), so twin runs are comparable byte for byte"],
+    },
     "C20": {
         "rule": "requested ages 0..99 x every absent/true/false assignment over a fixed age universe (exhaustive), "
                 "random larger honest/dishonest claim sets, and out-of-domain spellings (+NN, 0NN, non-boolean values, "
